@@ -13,10 +13,11 @@ if ! git -C "$S/repo" apply "$PATCH"; then echo "PATCH DOES NOT APPLY"; exit 3; 
 # reuse objects of the main build where possible: copy the build dir (hard links)
 mkdir -p "$S/build"
 VARIANT=${BIN%%/*}
-if [ -d /verif/build/gen ]; then cp -a /verif/build/gen "$S/build/gen"; fi
-if [ -d "/verif/build/$VARIANT" ]; then cp -a "/verif/build/$VARIANT" "$S/build/$VARIANT"; fi
+VB=${VB:-/verif/build}
+if [ -d $VB/gen ]; then cp -a $VB/gen "$S/build/gen"; fi
+if [ -d "$VB/$VARIANT" ]; then cp -a "$VB/$VARIANT" "$S/build/$VARIANT"; fi
 # dependency files mention /repo/src: rewrite them to the scratch tree
-find "$S/build" -name '*.d' -exec sed -i -e "s|/repo/src/|$S/repo/src/|g" -e "s|/verif/build/|$S/build/|g" {} + 2>/dev/null
+find "$S/build" -name '*.d' -exec sed -i -e "s|/repo/src/|$S/repo/src/|g" -e "s|$VB/|$S/build/|g" {} + 2>/dev/null
 # make decides by mtime: touched files in the scratch tree are newer
 ( cd "$S/repo" && git diff --name-only | xargs -r touch )
 make -s -C /verif REPO="$S/repo" B="$S/build" -j16 "$S/build/$BIN" >"$S/make.log" 2>&1 || { tail -30 "$S/make.log"; echo "BUILD FAILED"; exit 3; }
